@@ -229,6 +229,12 @@ def unparse_Constant(node: Constant, qm: typing.Literal["'", '"']) -> unparse_ge
     if isinstance(node.value, (float, complex)):
         # repr(float("inf")) is the name "inf", write an overflowing literal
         return repr(node.value).replace("inf", "1e309")
+    if type(node.value) is int:
+        try:
+            return repr(node.value)
+        except ValueError:
+            # more digits than sys.get_int_max_str_digits() allows; hex has no limit
+            return hex(node.value)
     return repr(node.value)
     yield
 
